@@ -1,28 +1,64 @@
-"""Replay support: after a proof obligation failed, look for a concrete failing input by
-running the *extracted real function text* (rules R1/R3 only, compiled with plain rustc)
-over a small enumerated domain.  Never used to decide a property."""
+"""Replay support: look for a concrete failing input by running the *extracted real function text*
+(rules R1/R3 only, compiled with plain rustc) over a small enumerated domain.  Used (a) after a proof
+obligation failed, to attach a failing input to the report, and (b) when the proof could not be
+attempted at all (lost anchor, unsupported construct): only a concrete failing input found here turns
+that undecided state into a violation.  Never used to declare that a property holds."""
 import json
 import os
+import re
 import subprocess
 import gen
 
+_built = {}
 
-def find(prop, u, f, nm):
-    unit_dir = os.path.join(gen.VERIF, 'units', u.name)
+
+def _build(name, unit_dir, scratch, auto_map):
+    key = (name, scratch)
+    if key in _built:
+        return _built[key]
+    exe = None
     w = os.path.join(unit_dir, 'witness.rs')
-    if not os.path.exists(w):
+    if os.path.exists(w):
+        auto = {k: list(v) for k, v in (auto_map or {}).items()}
+        for rnd in range(4):
+            try:
+                g = gen.generate(unit_dir, template='witness.rs', plain=True, auto_stubs=auto)
+                d = os.path.join(scratch, name)
+                os.makedirs(d, exist_ok=True)
+                src = os.path.join(d, name + '__witness.rs')
+                out = os.path.join(d, name + '__witness')
+                open(src, 'w').write(g.text)
+                p = subprocess.run(['rustc', '--edition', '2021', '-O', '-A', 'warnings', '--error-format=json', '-o', out, src],
+                                   capture_output=True, text=True, timeout=300)
+                if p.returncode == 0:
+                    exe = out
+                    break
+                diags = []
+                for line in p.stderr.split('\n'):
+                    if line.startswith('{'):
+                        try:
+                            diags.append(json.loads(line))
+                        except Exception:
+                            pass
+                added = False
+                for ref, st in gen.unresolved_callees(g, diags):
+                    lst = auto.setdefault(ref, [])
+                    if not any(x['qual'] == st['qual'] and x['kind'] == st['kind'] for x in lst):
+                        lst.append(st)
+                        added = True
+                if not added:
+                    break
+            except Exception:
+                break
+    _built[key] = exe
+    return exe
+
+
+def _run(exe, label, fn):
+    try:
+        r = subprocess.run([exe, label, fn or ''], capture_output=True, text=True, timeout=300)
+    except subprocess.TimeoutExpired:
         return None
-    g = gen.generate(unit_dir, template='witness.rs', plain=True)
-    d = os.path.dirname(u.gen_path)
-    src = os.path.join(d, u.name + '__witness.rs')
-    exe = os.path.join(d, u.name + '__witness')
-    open(src, 'w').write(g.text)
-    p = subprocess.run(['rustc', '--edition', '2021', '-O', '-A', 'warnings', '-o', exe, src],
-                       capture_output=True, text=True, timeout=300)
-    if p.returncode != 0:
-        return None
-    label = f.labels[0] if f.labels else ''
-    r = subprocess.run([exe, label, f.fn or ''], capture_output=True, text=True, timeout=300)
     for line in r.stdout.split('\n'):
         if line.startswith('WITNESS '):
             try:
@@ -32,3 +68,35 @@ def find(prop, u, f, nm):
             wit['replayed_on'] = 'extracted real function text (rules R1/R3 only) compiled with rustc'
             return wit
     return None
+
+
+def find(prop, u, f, nm):
+    unit_dir = os.path.join(gen.VERIF, 'units', u.name)
+    exe = _build(u.name, unit_dir, os.path.dirname(os.path.dirname(u.gen_path)), getattr(u, 'auto_map', None))
+    if not exe:
+        return None
+    label = f.labels[0] if f.labels else ''
+    return _run(exe, re.sub(r'@.*$', '', label), f.fn)
+
+
+def sweep(u, unit_dir, scratch):
+    """All labelled clauses of the unit, each tried once; returns [{fn, label, witness}]."""
+    exe = _build(u.name, unit_dir, scratch, getattr(u, 'auto_map', None))
+    if not exe:
+        return []
+    text = open(os.path.join(unit_dir, 'unit.rs')).read()
+    found = []
+    cur_fn = None
+    seen = set()
+    for line in text.split('\n'):
+        s = line.strip()
+        if s.startswith('//@@ fn '):
+            cur_fn = s.split()[3]
+        for lab in gen.LABEL_RE.findall(line):
+            if cur_fn is None or (cur_fn, lab) in seen:
+                continue
+            seen.add((cur_fn, lab))
+            w = _run(exe, lab, cur_fn)
+            if w:
+                found.append(dict(fn=cur_fn, label=lab, witness=w))
+    return found
